@@ -57,6 +57,9 @@ func H_C10_frame() {
 		return
 	}
 	vrt.Assert(op+": writes to no pre-existing object", writes == 0)
+	vrt.FootprintBegin(xs[0])
+	scalarAccessors(xs[0])
+	vrt.Assert("value-returning methods (reductions, NElems, Shape, At, Equals, ...) write to no pre-existing object", vrt.FootprintEnd("") == 0)
 	for i := range xs {
 		c10Same(op+" operand", st[i], false)
 	}
